@@ -3,6 +3,9 @@ CONSTANTS
   Subs = {1, 2}
   Amounts = {1, 2}
   Funds <- FundsSmall
+  GrantSets <- AdminGrants
+  Tails = TRUE
+  ReimportInView = FALSE
   NativeMetas = {1}
   SpecialIds = {1, 2, 3, 4, 5, 6, 7, 8}
   Bindings <- PlainBinding
